@@ -240,6 +240,23 @@ theorem batchAdd_append (α : F) (xs ys : List F) :
   | nil => simp [batchAdd]
   | cons x xs ih => simp [batchAdd, ih, mul_assoc]
 
+/-- the batch product does not depend on how a batch is cut into blocks (any block sizes, any number of blocks):
+what a block-wise / parallel implementation of `batch_additions` has to preserve — in particular no block, and no
+remainder shorter than a block, may be left out -/
+theorem batchAdd_blocks (α : F) (blocks : List (List F)) :
+    batchAdd α blocks.flatten = (blocks.map (batchAdd α)).prod := by
+  induction blocks with
+  | nil => simp [batchAdd]
+  | cons b bs ih => simp [batchAdd_append, ih]
+
+/-- … nor on the order of the identifiers -/
+theorem batchAdd_perm (α : F) (xs ys : List F) (h : xs.Perm ys) : batchAdd α xs = batchAdd α ys := by
+  induction h with
+  | nil => rfl
+  | cons x _ ih => simp [batchAdd, ih]
+  | swap x y l => simp [batchAdd, mul_left_comm]
+  | trans _ _ ih1 ih2 => exact ih1.trans ih2
+
 /-- value invariant: there is a duplicate-free list `R` of exactly the revoked identifiers with
 `value = (∏_{y ∈ R} (h y + α))⁻¹ • V₀` — every revoked identifier is divided out exactly once -/
 def ValueInv (h : String → F) (α : F) (V0 : G) (s : State G) : Prop :=
